@@ -118,3 +118,24 @@ Theorem C11_ctest_process_matches_source :
     = w_add w (render_entry (ECTest name doc params)).
 Proof. exact ctest_process_matches_source. Qed.
 Print Assumptions C11_ctest_process_matches_source.
+
+Theorem C11_process_add_test_matches_source :
+  forall c doc docd st,
+    documented (process_add_test c doc docd st)
+    = PySource.DocumentationAggregator_process_add_test c doc (documented st).
+Proof. exact process_add_test_matches_source. Qed.
+Print Assumptions C11_process_add_test_matches_source.
+
+Theorem C11_process_ct_add_test_matches_source :
+  forall c doc docd st,
+    (documented (process_test false c doc docd st), awaiting (process_test false c doc docd st))
+    = PySource.DocumentationAggregator_process_ct_add_test c doc (documented st) (awaiting st).
+Proof. exact process_ct_add_test_matches_source. Qed.
+Print Assumptions C11_process_ct_add_test_matches_source.
+
+Theorem C11_process_ct_add_section_matches_source :
+  forall c doc docd st,
+    (documented (process_test true c doc docd st), awaiting (process_test true c doc docd st))
+    = PySource.DocumentationAggregator_process_ct_add_section c doc (documented st) (awaiting st).
+Proof. exact process_ct_add_section_matches_source. Qed.
+Print Assumptions C11_process_ct_add_section_matches_source.
